@@ -5,9 +5,9 @@ from common import freephil, enc, dec, call_j, word_j, classify_runtime
 
 LEVEL = "proof"
 MODULE = "Phil.Props.C12"
-LEVEL_TEXT = "Lean theorems about the substitution model: the operational resolution equals a fuel-free denotational specification (nearest earlier definition, enclosing scopes outward, dotted and root-anchored names, last earlier match wins) for every environment, position and both modes on every parser output (resolveAt_eq_denote_parsed, parse_docIds, lexicalGet_eq_nearestEarlier); corollaries: later objects irrelevant, environment irrelevant when an earlier definition exists, single quotes and '$'-free words untouched, one unquoted variable takes the words / any mixture is one double-quoted word, resolution never runs out of fuel. Tied to /repo by a correspondence run of resolve_variables of every definition of generated documents x environments (one object per line and several per line, one-line scopes); the oracle reads 'earlier' from document positions of the generator's tree (not from primary ids) and evaluates the clauses on the implementation."
-LEVEL_NOTE = "os.environ is a parameter of the model. $a.b reads as variable a followed by '.b', as coded. Known edges on the unchanged tree (see DESIGN §7): triple-single-quoted text is substituted by the code and by the model (finding D70; the oracle reads ''' as single quotes and tags its failures on such definitions), disabled definitions serve as variable sources."
-TECHNIQUE = 'Lean 4 refinement of operational resolution to a denotational specification + differential correspondence + position-based reference oracle'
+LEVEL_TEXT = "Lean theorems about the substitution model: the operational resolution equals a fuel-free denotational specification for every environment, position and both modes on every parser output (resolveAt_eq_denote_parsed); and INSIDE fetch: on nested masters (also with .multiple definitions) the fetch of parsed sources with variables equals the tree result over the DENOTED words, or the first resolution error in master order (fetch_with_variables_of_texts, fetch_tree_multi_vars_total), whole-fetch environment independence (fetch_env_independent), later definitions irrelevant, the consumed-by-reference rule for the unused list; resolution never strays nor runs out of fuel. Tied to /repo by a correspondence run of resolve_variables of every definition of generated documents x environments (several objects per line, one-line scopes, sources read through include files); the oracle reads 'earlier' from document positions of the generator's tree and evaluates the clauses on the implementation."
+LEVEL_NOTE = "os.environ is a parameter of the model. $a.b reads as variable a followed by '.b', as coded. Findings on the unchanged tree: D70 (triple-single-quoted text is substituted; the oracle reads ''' as single quotes and tags its failures on such definitions); disabled definitions serve as variable sources (outside the statement's wording); variables do not cross an include boundary (D71)."
+TECHNIQUE = 'Lean 4 refinement of operational resolution to a denotational specification, lifted into the fetch closed form + differential correspondence + position-based reference oracle'
 RULE = ("documents of definitions and nested scopes (depth <= 3) whose words mix literals, $x, $(x), $(a.b), $(.a.b), \\$, all "
         "quote styles, references to scopes, later definitions, themselves and undefined names x environments that do or do not "
         "define the names x layouts (one object per line; statements sharing a physical line through ';', one-line scopes, "
